@@ -17,24 +17,42 @@ def strs? (v : Val) : Option (List C16.Str) := (v.strList?).map fun l => l.map S
 def ofTable (t : List ((String × String) × Float)) : Val :=
   .list (t.map fun r => .list [.str r.1.1, .str r.1.2, ofFloat r.2])
 
-def cfg? (b s h lab tO : Val) : Option Cfg := do
-  pure ⟨← b.nat?, ← s.nat?, ← h.str?, ← lab.str?, ← bool? tO⟩
+def cfg? (b s h lab tO rn rd : Val) : Option Cfg := do
+  pure ⟨← b.nat?, ← s.nat?, ← h.str?, ← lab.str?, ← bool? tO, ← rn.nat?, ← rd.nat?⟩
 
-/-- E2E (DESIGN §11.2).  MODEL ops, all at `Float` over the REGENERATED dispatch tables:
-  `rank B sub heuristic label targetOnly header [line…]` → `[[[a, b, f:score]…], invalid, batches]` – `Pipeline.rankFile`:
-      the rows of `pairwise_ranks.tsv` in the model's (ascending, stable) order, `invalid_lines`, number of ranked batches;
-  `batchrows B sub heuristic label targetOnly header [line…]` → per ranked batch the emitted rows `[[a, b, f:score]…]`
-      (`Pipeline.batchRows` on the batches of `Stream.run`; used to localise a difference);
+def ofRat (q : Rat) : Val := .rat q.num q.den
+
+def ofSummary : Option C18.Table → Val
+  | some t => .list (t.map fun p => .list [.str (String.ofList p.1), ofRat p.2])
+  | none => .atom "degenerate"
+
+/-- E2E (DESIGN §11.2).  MODEL ops, all at `Float` over the REGENERATED dispatch tables; `rnum rden` = the exact
+rational of the float32 `--mi_stratified_sampling_ratio` (`1 1` = no sub-sampling):
+  `rank B sub heuristic label targetOnly rnum rden header [line…]` → `[[[a, b, f:score]…], invalid, batches]` –
+      `Pipeline.rankFile`: the rows of `pairwise_ranks.tsv` in the model's (ascending, stable) order, `invalid_lines`,
+      number of ranked batches;
+  `summary B sub heuristic label targetOnly rnum rden header [line…]` → `[feature_singles, [[a, b, f:score]…]]` –
+      `Pipeline.summaryOfFile` with the exact `Float → Rat` conversion `Pipeline.floatToRat`: the rows `[name, p/q]` of
+      `feature_singles.tsv` in the model's (descending, stable) order, or `degenerate` (max = min under an MI heuristic:
+      the code's all-NaN column), followed by the pairwise table it was computed from;
+  `batchrows B sub heuristic label targetOnly rnum rden header [line…]` → per ranked batch the emitted rows
+      `[[a, b, f:score]…]` (`Pipeline.batchRows` on the batches of `Stream.run`; used to localise a difference);
   `cols header` → the column names (`Pipeline.headerCols`). -/
 def drv : Handler := fun st args => match args with
-  | [.atom "rank", b, s, h, lab, tO, .str header, lines] =>
-    match cfg? b s h lab tO, strs? lines with
+  | [.atom "rank", b, s, h, lab, tO, rn, rd, .str header, lines] =>
+    match cfg? b s h lab tO rn rd, strs? lines with
     | some c, some ls =>
       let o := rankFile floatArith C05.Gen.rules C05.Gen.correctionName c header.toList ls
       (st, .list [ofTable o.table, .int o.invalid, .int o.batches])
     | _, _ => (st, bad "E2E-rank")
-  | [.atom "batchrows", b, s, h, lab, tO, .str header, lines] =>
-    match cfg? b s h lab tO, strs? lines with
+  | [.atom "summary", b, s, h, lab, tO, rn, rd, .str header, lines] =>
+    match cfg? b s h lab tO rn rd, strs? lines with
+    | some c, some ls =>
+      let o := rankFile floatArith C05.Gen.rules C05.Gen.correctionName c header.toList ls
+      (st, .list [ofSummary (summaryOfTable floatToRat c o.table), ofTable o.table])
+    | _, _ => (st, bad "E2E-summary")
+  | [.atom "batchrows", b, s, h, lab, tO, rn, rd, .str header, lines] =>
+    match cfg? b s h lab tO rn rd, strs? lines with
     | some c, some ls =>
       let cols := headerCols header.toList
       let out := Stream.run c.stream (parsedLines header.toList ls)
